@@ -353,20 +353,13 @@ Proof.
       rewrite N1, N2. destruct Hp'e as [->|(-> & ->)]; reflexivity.
 Qed.
 
-(** the fixed point for authorities "[user[:password]@]name[:port]" with a plain ASCII host name *)
-Theorem fixed_point_userinfo s u :
+(** the constructor produces a canonical value on that class of inputs *)
+Lemma constructor_canon_value s u :
   valid_str s -> encode_url O B s = Ok u ->
   (let '(_, nl0, _, _, _) := rfc_split (spec_clean s) in
    exists us pw h0 pt, split_netloc nl0 = Ok (us, pw, Some h0, pt) /\ plain_name h0) ->
-  (* F30: a user made only of lone surrogates canonicalises to the empty string *)
   (forall m, u_eager u = Some m -> m_user m <> Some []) ->
-  exists s' u2 m m2,
-    url_str B u = Ok s' /\ encode_url O B s' = Ok u2 /\ url_str B u2 = Ok s'
-    /\ netloc_parts u = Ok m /\ netloc_parts u2 = Ok m2
-    /\ u_scheme u2 = u_scheme u /\ m_user m2 = m_user m /\ m_password m2 = m_password m /\ m_host m2 = m_host m
-    /\ port u2 = port u
-    /\ u_path u2 = printed_path u /\ raw_path u2 = raw_path u
-    /\ u_query u2 = u_query u /\ u_fragment u2 = u_fragment u.
+  exists ru rp h pt, canon_value u ru rp h pt.
 Proof.
   intros Hv H Hclass H30.
   destruct (encode_url_shape_nl s u Hv H) as (nl0 & p0 & q0 & f0 & Es & Ea & Vn).
@@ -387,7 +380,26 @@ Proof.
   assert (H3 : forallb not_in3 h = true).
   { apply Hn3. apply forallb_forall. intros c Hc. rewrite forallb_forall in Hnl3. apply Hnl3. now apply Sh. }
   assert (Hl : lower_ascii h = h) by apply lower_ascii_idem.
-  apply (fixed_point_value u ru rp h pt). constructor; try assumption.
+  exists ru, rp, h, pt. constructor; try assumption.
   unfold netloc_parts. now rewrite Ee.
+Qed.
+
+(** the fixed point for authorities "[user[:password]@]name[:port]" with a plain ASCII host name *)
+Theorem fixed_point_userinfo s u :
+  valid_str s -> encode_url O B s = Ok u ->
+  (let '(_, nl0, _, _, _) := rfc_split (spec_clean s) in
+   exists us pw h0 pt, split_netloc nl0 = Ok (us, pw, Some h0, pt) /\ plain_name h0) ->
+  (* F30: a user made only of lone surrogates canonicalises to the empty string *)
+  (forall m, u_eager u = Some m -> m_user m <> Some []) ->
+  exists s' u2 m m2,
+    url_str B u = Ok s' /\ encode_url O B s' = Ok u2 /\ url_str B u2 = Ok s'
+    /\ netloc_parts u = Ok m /\ netloc_parts u2 = Ok m2
+    /\ u_scheme u2 = u_scheme u /\ m_user m2 = m_user m /\ m_password m2 = m_password m /\ m_host m2 = m_host m
+    /\ port u2 = port u
+    /\ u_path u2 = printed_path u /\ raw_path u2 = raw_path u
+    /\ u_query u2 = u_query u /\ u_fragment u2 = u_fragment u.
+Proof.
+  intros Hv H Hclass H30. destruct (constructor_canon_value s u Hv H Hclass H30) as (ru & rp & h & pt & Hcv).
+  now apply (fixed_point_value u ru rp h pt).
 Qed.
 End F.
